@@ -258,10 +258,10 @@ func texts(rs []report) []string {
 type decHash struct{ b []byte }
 
 func (h *decHash) Write(p []byte) (int, error) { h.b = append(h.b, p...); return len(p), nil }
-func (h *decHash) Sum(b []byte) []byte          { return b }
-func (h *decHash) Reset()                       { h.b = h.b[:0] }
-func (h *decHash) Size() int                    { return 4 }
-func (h *decHash) BlockSize() int               { return 1 }
+func (h *decHash) Sum(b []byte) []byte         { return b }
+func (h *decHash) Reset()                      { h.b = h.b[:0] }
+func (h *decHash) Size() int                   { return 4 }
+func (h *decHash) BlockSize() int              { return 1 }
 func (h *decHash) Sum32() uint32 {
 	n, _ := strconv.ParseUint(string(h.b), 10, 32)
 	return uint32(n)
